@@ -19,6 +19,22 @@ Theorem C20_recalc_range_and_step : forall c trt avg, (1 <= c <= 250)%Z ->
   (c - n <= Qceiling (qmax 1 (inject_Z c * (2 # 10))))%Z.
 Proof. exact recalc_step. Qed.
 
+(* the arithmetic of _recalc_concurrency is translated from the Python source on every run (cap, floor, the two
+   branches of `if avg != 0`, the rounding - gen/Gen_session.v, the definitions gen_rc_...): every expression was
+   understood, and evaluated over exact rationals (decimal literals as written) they are the model's formulas *)
+Theorem C20_generated_known :
+  forallb aknown [gen_rc_cap; gen_rc_floor; gen_rc_target_nonzero; gen_rc_target_zero; gen_rc_round] = true.
+Proof. exact rc_generated_known. Qed.
+
+Theorem C20_new_limit_uses_generated : forall current trt avg,
+  let cap := aeval (renv current trt avg 0 0 0) gen_rc_cap in
+  let floor := aeval (renv current trt avg 0 0 0) gen_rc_floor in
+  let target := if Qeq_bool avg 0 then aeval (renv current trt avg cap floor 0) gen_rc_target_zero
+                else aeval (renv current trt avg cap floor 0) gen_rc_target_nonzero in
+  inject_Z (new_limit current trt avg) = aeval (renv current trt avg cap floor (clamp current trt avg)) gen_rc_round /\
+  (target == clamp current trt avg)%Q.
+Proof. exact new_limit_uses_generated. Qed.
+
 Theorem C20_limit_always_in_range : forall h,
   Forall (fun l => (1 <= l <= 250)%Z) (limits rs_initial_outgoing h).
 Proof. intros h. apply limits_in_range. unfold rs_initial_outgoing. lia. Qed.
@@ -87,6 +103,8 @@ Example C20_ex :
 Proof. vm_compute. reflexivity. Qed.
 
 Print Assumptions C20_initial.
+Print Assumptions C20_generated_known.
+Print Assumptions C20_new_limit_uses_generated.
 Print Assumptions C20_send_shape.
 Print Assumptions C20_awaiting_hold_permits.
 Print Assumptions C20_recalc_range_and_step.
